@@ -264,7 +264,9 @@ def create_node(
             nv = create_node(global_context, inner_type, nctx)
             nctx.nodes += number_of_nodes(nv)
             nli.append(nv)
-        vl: GengyList = GengyList(starting_symbol, nli)
+        # (the list remembers the type of its ELEMENTS, as the lists built by ListSizeBetween do:
+        # relabel_nodes charges the elements' abstract expansions against it)
+        vl: GengyList = GengyList(inner_type, nli)
         return wrap_result(vl, global_context, context)
     elif is_metahandler(starting_symbol):
         metahandler: MetaHandlerGenerator = starting_symbol.__metadata__[0]
